@@ -21,6 +21,7 @@ SYNTAX = [
     ("multi-name groups", "type G struct {\n\tV int32\n\tW *string\n}\n\ntype T struct {\n\tK int64\n\tL, M G\n}\n"),
     ("one struct type used by several fields", "type A struct {\n\tX int32\n\tY *string\n}\n\ntype T struct {\n\tID int64\n\tB A\n\tS *A\n\tP []A\n}\n"),
     ("one struct type used at two depths", "type A struct {\n\tX int64\n}\n\ntype M struct {\n\tIn A\n\tN *int32\n}\n\ntype T struct {\n\tFirst A\n\tMid *M\n\tLast *A\n}\n"),
+    ("multi-name declarations of mixed visibility", "type G struct {\n\tgain, Site *int32\n\tName string\n}\n\ntype T struct {\n\tseq, Samples int32\n\tGain, scratch *int64\n\tLoc G\n\tOpt *G\n}\n"),
     ("multi-name leaves inside a group", "type G struct {\n\tV, W int64\n}\n\ntype T struct {\n\tK int32\n\tH *G\n}\n"),
 ]
 
